@@ -38,7 +38,27 @@ def coal_item(tid, n, c, light=False):
         t["from_players"] = int(Coalition.from_players(t["players"]).id)
         if light:                      # large player counts: without the (exponentially long) sub-/super-coalition lists
             return
+        # consumption patterns first (seed C18-f: a memoised, non re-entrant iterable): two enumerations of the same coalition's
+        # sub-coalitions nested in one another and advanced in lock-step, and super-coalitions asked for while sub-coalitions are being
+        # enumerated; whatever the pattern, each enumeration yields the complete list
+        nested = []
+        if c % 3 == 0 and len(co) <= 6:
+            for a_ in get_sub_coalitions(co):
+                inner = [int(b_.id) for b_ in get_sub_coalitions(co)]
+                sup_inner = [int(b_.id) for b_ in get_super_coalitions(co.inverted(n), n)] if len(co) <= 4 else None
+                nested.append((int(a_.id), inner, sup_inner))
+            lock = [(int(a_.id), int(b_.id)) for a_, b_ in zip(get_sub_coalitions(co), get_sub_coalitions(co))]
         t["subs"] = [int(x.id) for x in get_sub_coalitions(co)]
+        if nested:
+            if ([a_ for a_, _i, _s in nested] != t["subs"] or any(i_ != t["subs"] for _a, i_, _s in nested)
+                    or [a_ for a_, _b in lock] != t["subs"] or [b_ for _a, b_ in lock] != t["subs"]
+                    or any(s_ is not None and sorted(s_) != sorted(x | (2 ** n - 1 - c) for x in t["subs"]) for _a, _i, s_ in nested)):
+                t["subs"] = t["subs"][:-1] + [-7]          # reported through the enumeration clause
+        # arrays handed out by the id helpers belong to the caller: they are overwritten here, which must not reach later answers
+        # (seed C02-f: get_all_coalitions memoised, one shared mutable array per player count)
+        for arr in (CI.get_all_coalitions(n), CI.sub_coalitions(c, n), CI.super_coalitions(c, n), CI.players(c, n)):
+            if isinstance(arr, np.ndarray) and arr.size:
+                arr[...] = arr[::-1].copy() if c % 2 else 0
         t["id_subs"] = [int(x) for x in CI.sub_coalitions(c, n)]
         t["supers"] = [int(x.id) for x in get_super_coalitions(co, n)]
         t["id_supers"] = [int(x) for x in CI.super_coalitions(c, n)]
